@@ -56,7 +56,8 @@ impl ChannelQueue {
     assert!(capacity > 0, "ChannelQueue must be positive");
 
     Self {
-      queue: VecDeque::with_capacity(capacity),
+      // the capacity is a limit, large buffers grow as they fill
+      queue: VecDeque::with_capacity(usize::min(capacity, 1024)),
       capacity,
       state: ChannelQueueState::Ready,
       kind: ChannelQueueKind::Buffered,
